@@ -417,6 +417,47 @@ func filterJustified(v ssa.Value, queries ...string) (bool, string) {
 		return false, ""
 	}
 	sc := call.Call.StaticCallee()
+	if sc != nil && engine.BaseName(sc) != "Filter" && len(sc.Blocks) > 0 && sc.Parent() == nil {
+		// a helper of gluon that wraps one Filter whose predicate captures the helper's parameters: judge the
+		// arguments bound to those parameters at this call
+		rets := engine.Returns(sc)
+		if len(rets) == 1 && len(rets[0].Results) == 1 {
+			if inner, ok := rets[0].Results[0].(*ssa.Call); ok && inner.Call.StaticCallee() != nil && engine.BaseName(inner.Call.StaticCallee()) == "Filter" {
+				if mc, ok := inner.Call.Args[1].(*ssa.MakeClosure); ok {
+					for _, b := range mc.Bindings {
+						p, isParam := b.(*ssa.Parameter)
+						if !isParam {
+							// a captured cell holding the parameter
+							if al, isAl := b.(*ssa.Alloc); isAl {
+								if sts := engine.StoresTo(al); len(sts) == 1 {
+									p, isParam = sts[0].Val.(*ssa.Parameter)
+								}
+							}
+						}
+						if !isParam {
+							continue
+						}
+						for i, q := range sc.Params {
+							if q != p || i >= len(call.Call.Args) {
+								continue
+							}
+							srcs := valueSources(call.Call.Args[i])
+							all := len(srcs) > 0
+							for _, s := range srcs {
+								if !isTxMethodCall(s, queries...) {
+									all = false
+								}
+							}
+							if all {
+								return true, ""
+							}
+						}
+					}
+				}
+			}
+		}
+		return false, ""
+	}
 	if sc == nil || engine.BaseName(sc) != "Filter" {
 		return false, ""
 	}
@@ -506,6 +547,47 @@ func c06idem(c *Ctx, apply *ssa.Function, reach map[*ssa.Function]*ssa.Function)
 								why = w
 							}
 						}
+					}
+				}
+			}
+			// J2b: the call is dominated by the "not contained" outcome of slices.Contains(<GetMessageMailboxIDs result>, mbox)
+			if !just {
+				for _, b := range f.Blocks {
+					iff := engine.IfOf(b)
+					if iff == nil {
+						continue
+					}
+					cond, neg := engine.StripNot(iff.Cond)
+					call, ok := cond.(*ssa.Call)
+					if !ok || call.Call.StaticCallee() == nil || engine.BaseName(call.Call.StaticCallee()) != "Contains" || len(call.Call.Args) != 2 {
+						continue
+					}
+					if !strings.Contains(engine.PkgPathOf(call.Call.StaticCallee()), "slices") {
+						continue
+					}
+					srcs := valueSources(call.Call.Args[0])
+					allQ := len(srcs) > 0
+					for _, s2 := range srcs {
+						if !isTxMethodCall(s2, "GetMessageMailboxIDs") {
+							allQ = false
+						}
+					}
+					same := call.Call.Args[1] == mbox
+					if !same {
+						for _, a := range valueSources(call.Call.Args[1]) {
+							for _, m := range valueSources(mbox) {
+								if a == m {
+									same = true
+								}
+							}
+						}
+					}
+					notIx := 1
+					if neg {
+						notIx = 0
+					}
+					if allQ && same && engine.EdgeDominates(b, notIx, cs.Instr.Block()) {
+						just = true
 					}
 				}
 			}
